@@ -112,4 +112,23 @@ def run (n : Nat) (v : List Int → Outcome) (null mean : Rat) (pr : Params)
   pure (average n (keep pr (clock.headD 0) cols clock.tail))
 
 end MC
+
+/-! ## the scoring loops on top of a provenance container
+`indices = provenance.query(iter)` selects the training rows handed to the utility; `util rows` is the
+outcome of evaluating the utility on exactly those rows (ascending row indices). -/
+
+/-- coalition evaluation as both loops perform it: query the container, evaluate the utility on the
+selected rows; a failing query is an uncaught exception -/
+def evalRows (p : Prov.P) (util : List Nat → Outcome) (q : List Int) : Outcome :=
+  match Prov.queryIdx p q with
+  | .ok rows => util rows
+  | .error _ => .other
+
+def Brute.scoresProv (p : Prov.P) (util : List Nat → Outcome) (null : Rat) : Option (List Rat) :=
+  Brute.scores p.nUnits (fun a => evalRows p util (a.map Int.ofNat)) null
+
+def MC.runProv (p : Prov.P) (util : List Nat → Outcome) (null mean : Rat) (pr : MC.Params)
+    (perms : List (List Nat)) (clock : List Rat) : Option (Option (List Rat)) :=
+  MC.run p.nUnits (evalRows p util) null mean pr perms clock
+
 end Ds
